@@ -53,6 +53,21 @@ func selfCheck(in In) {
 
 func checkDenotes(scen string, in In) *mc.Violation {
 	selfCheck(in)
+	if in.Via == "control-reused" {
+		// the same text decoded into a Dependency that already holds another field's relations
+		d := &dependency.Dependency{}
+		var err error
+		if p, msg := mc.Guard(func() { d.UnmarshalControl("zz (>= 9) [i386] <q> | ${v}, yy"); err = d.UnmarshalControl(in.Text) }); p {
+			return mc.V(scen, "parse-returns", in, "no panic", "panic: "+msg, in.Devs...)
+		}
+		if err != nil {
+			return mc.V(scen, "wellformed-accepted", in, in.Canon, "error: "+err.Error(), in.Devs...)
+		}
+		if got := gen.CanonDep(d); got != in.Canon {
+			return mc.V(scen, "structure-exact", in, in.Canon, got, in.Devs...)
+		}
+		return nil
+	}
 	var d *dependency.Dependency
 	var err error
 	if p, msg := mc.Guard(func() { d, err = parseVia(in.Via, in.Text) }); p {
@@ -159,7 +174,7 @@ func Run(r *mc.Run) {
 	sh := gen.DepShapes(r.Quick())
 	r.Scenario("single-possibility-shapes", map[string]interface{}{"shapes": len(sh)}, len(sh), func(i int, st *mc.Stats) bool {
 		d := gen.ADep{gen.ARel{sh[i]}}
-		for _, via := range []string{"parse", "control"} {
+		for _, via := range []string{"parse", "control", "control-reused"} {
 			in := In{d.Render(), d.Canon(), nil, via}
 			st.Evals++
 			st.Traces++
